@@ -141,6 +141,19 @@ def refine (cfg : Cfg) (total den A : Nat) : List Nat → Nat → Nat → Option
     if (sum + w) * den ≤ total * A then refine cfg total den A rest (idx + 1) (sum + w)
     else some idx
 
+/-- `ret.into_par_iter().zip(cache).zip(weight_thresholds).map(refinement loop).collect()`;
+`starts` holds the pairs `(ret[i], cache[i])`. -/
+def refineAll (cfg : Cfg) (total den : Nat) (sw : List Nat) :
+    List (Nat × Nat) → List Nat → Option (List Nat)
+  | e :: es, A :: As =>
+    match refine cfg total den A (sw.drop e.1) e.1 e.2 with
+    | none => none
+    | some i =>
+      match refineAll cfg total den sw es As with
+      | none => none
+      | some is => some (i :: is)
+  | _, _ => some []
+
 /-- `multi_jagged.rs: compute_split_positions`. -/
 def splitPositions (cfg : Cfg) (chunks : List Nat) (ws perm mods : List Nat) (den : Nat) :
     Option (List Nat) :=
@@ -153,14 +166,19 @@ def splitPositions (cfg : Cfg) (chunks : List Nat) (ws perm mods : List Nat) (de
     let As := cumul mods.dropLast 0
     match scanOuter cfg sw.length total den As (mkBlocks chunks sw 0) 0 [] with
     | none => none
-    | some starts =>
-      (starts.zip As).mapM (fun e => refine cfg total den e.2 (sw.drop e.1.1) e.1.1 e.1.2)
+    | some starts => refineAll cfg total den sw starts As
 
-/-- What `compute_split_positions` computes for one threshold (exact arithmetic):
-the least `i` whose prefix sum `w₀+…+wᵢ` exceeds `total * A / den`, or the slab's
-length when no prefix does. -/
-def specIdx (total den A : Nat) (sw : List Nat) : Nat :=
-  (refine {} total den A sw 0 0).getD 0
+/-- What `compute_split_positions` computes for one threshold (exact arithmetic), as a
+total function: walk the slab's weights `w₀, w₁, …` while the prefix sum stays
+`≤ total * A / den`. -/
+def specFrom (total den A : Nat) : List Nat → Nat → Nat → Nat
+  | [], idx, _ => idx
+  | w :: rest, idx, sum =>
+    if (sum + w) * den ≤ total * A then specFrom total den A rest (idx + 1) (sum + w) else idx
+
+/-- The least `i` whose prefix sum `w₀+…+wᵢ` exceeds `total * A / den`, or the slab's
+length when no prefix does (`split_index_spec`). -/
+def specIdx (total den A : Nat) (sw : List Nat) : Nat := specFrom total den A sw 0 0
 
 /-- `multi_jagged.rs: split_at_mut_many` (fold body). -/
 def splitManyAux {α} : List α → Nat → List Nat → Option (List (List α))
